@@ -16,13 +16,14 @@ import (
 
 // progData is the payload of a program case.
 type progData struct {
-	Term *gen.Term    `json:"term"`
-	Env  real.EnvSpec `json:"env"`
+	Term    *gen.Term     `json:"term"`
+	Env     real.EnvSpec  `json:"env"`
+	CallEnv *real.EnvSpec `json:"call_env,omitempty"` // run-time environment when it differs from the compile-time one
 }
 
 func progCase(family string, t *gen.Term, env real.EnvSpec, envTag string) *engine.Case {
 	src := t.Render()
-	b, err := json.Marshal(progData{t, env})
+	b, err := json.Marshal(progData{Term: t, Env: env})
 	if err != nil {
 		panic("harness: case not serialisable: " + err.Error())
 	}
@@ -96,11 +97,20 @@ type ProgObs struct {
 
 // observe runs the reference and the real code (all requested back ends) on one program.
 func observe(t *gen.Term, env real.EnvSpec, h *real.Host, backends []real.Backend, wantType bool) *ProgObs {
+	return observe2(t, env, nil, h, backends, wantType)
+}
+
+// observe2: like observe, with a separate run-time environment (nil = the compile-time one).
+func observe2(t *gen.Term, env real.EnvSpec, callEnv *real.EnvSpec, h *real.Host, backends []real.Backend, wantType bool) *ProgObs {
 	p := &ProgObs{Term: t, Src: t.Render(), Env: env, B: map[real.Backend]*BackendObs{}}
 	ck := ref.NewChecker(h.RefFuns(), env.Types())
 	p.RefType, p.RefErr = ck.Check(t)
+	runEnv := env
+	if callEnv != nil {
+		runEnv = *callEnv
+	}
 	if p.RefErr == nil {
-		ev := ref.NewEval(ck.Res, env.Values())
+		ev := ref.NewEval(ck.Res, runEnv.Values())
 		p.RefVal, p.RefFail = ev.Run(t)
 		p.RefTrace = ev.Trace
 		p.RefUnspec = ev.Unspec
@@ -110,7 +120,7 @@ func observe(t *gen.Term, env real.EnvSpec, h *real.Host, backends []real.Backen
 		p.Execs++
 	}
 	for _, b := range backends {
-		bo := &BackendObs{Obs: real.Run(b, h, p.Src, env)}
+		bo := &BackendObs{Obs: real.Run2(b, h, p.Src, env, runEnv)}
 		p.Execs++
 		if bo.Obs.Val != nil {
 			bo.Val, bo.ValErr = real.FromVal(bo.Obs.Val)
